@@ -83,6 +83,11 @@ fn generate_engine(rng: &mut Rng) -> EngineSc {
     if rng.chance(1, 2) && crate::esim::inject_invalid_byte(&mut sc.script, rng) {
         sc.prompts = sc.prompts.max(1);
     }
+    // 1 in 3 scripts carry keep-alive / unknown-type events inside a response (frames derived from
+    // them are numbered under the same oracle)
+    if rng.chance(1, 3) && crate::esim::inject_odd_events(&mut sc.script, rng) {
+        sc.prompts = sc.prompts.max(1);
+    }
     sc
 }
 
